@@ -13,7 +13,11 @@ CONSTS = ["const c9 = 10", "const (cs9 = \"s\"; c0 = 0)"]
 def build(rng, depth, k, in_module):
     """returns (main src, module srcs, expected [(file, line)] outermost first, error name)"""
     expected = []
-    failexpr, ename = rng.choice(FAILS)
+    # half of the layouts start with constant declarations (and may fail in an operator with a constant operand);
+    # the others keep their first statement at byte 0 of the file
+    use_consts = rng.random() < .5
+    failexpr, ename = rng.choice(FAILS if use_consts else FAILS[:5])
+    consts = list(CONSTS) if use_consts else []
     kind = rng.randrange(3)
     rec = rng.choice([0, 0, 1, 2, 3]) if (depth >= 2 and not in_module) else 0
     def filler(lines):
@@ -55,12 +59,12 @@ def build(rng, depth, k, in_module):
         return fn_line
     mods = []
     if in_module and depth >= 1:
-        ml = list(CONSTS)
+        ml = list(consts)
         fl = body_lines(ml, "g", depth, "m1")
         filler(ml)
         ml.append("return {f: g1}")
         mods.append("\n".join(ml) + "\n")
-        lines = [""] * k + list(CONSTS)
+        lines = [""] * k + list(consts)
         filler(lines)
         lines.append("m := import(\"m1\")")
         filler(lines)
@@ -69,7 +73,7 @@ def build(rng, depth, k, in_module):
         for d in range(1, depth + 1): expected.append(("m1", fl[d]))
         lines.append("return res")
     else:
-        lines = [""] * k + list(CONSTS)
+        lines = [""] * k + list(consts)
         fl = body_lines(lines, "f", depth, "(main)") if depth >= 1 else {}
         filler(lines)
         if depth == 0:
